@@ -14,6 +14,13 @@ From Muscle Require Import Conc.ThreadQ Conc.ThreadQWf.
 Import ListNotations.
 
 Ltac inv H := inversion H; subst; clear H.
+Ltac destr_k k := destruct k as [|[] [|? ?]]; try contradiction.
+Ltac kill_ret :=
+  repeat match goal with
+  | Hr : ret _ _ _ _ = _ |- _ => simpl in Hr
+  | Hr : (if ?w then _ else _) = (_, _, _) |- _ => destruct w
+  | Hr : (_, _, _) = (_, _, _) |- _ => inv Hr
+  end.
 
 (* ---------- "some user thread is at a program counter satisfying f" ---------- *)
 
@@ -119,20 +126,153 @@ Qed.
 
 Lemma signal_readable_mono : forall c c' g g' e, signal c g = (g', e) -> readable g c' = true -> readable g' c' = true.
 Proof.
-  intros c c' g g' e H R. unfold signal in H.
-  destruct (g_sockets g) eqn:Es.
-  - destruct c.
-    + destruct (g_alloc g) eqn:Ea; [destruct (g_iopen g) eqn:Eo|]; inv H; auto.
-      unfold readable in *; simpl in *. rewrite Es in *. destruct c'; simpl in *; auto.
-      rewrite Ea, Eo in *. simpl in *. exact R.
-    + destruct (g_alloc g && g_iopen g) eqn:Ea; inv H; auto.
-      unfold readable in *; simpl in *. rewrite Es in *. destruct c'; simpl in *; auto.
-  - inv H. unfold readable in *. destruct c, c'; simpl in *; rewrite Es in *; simpl in *; auto;
-      apply Nat.ltb_lt in R; apply Nat.ltb_lt; lia.
+  intros c c' g g' e H R. unfold signal in H. unfold readable in *.
+  destruct c, c', (g_sockets g) eqn:Es, (g_alloc g) eqn:Ea, (g_iopen g) eqn:Eo; simpl in *; inv H; simpl;
+    rewrite ?Es, ?Ea, ?Eo; simpl; auto;
+    try (apply Nat.ltb_lt in R; apply Nat.ltb_lt; lia);
+    try (apply orb_true_iff in R; destruct R as [R|R]; [apply Nat.ltb_lt in R | discriminate]; apply orb_true_iff; left; apply Nat.ltb_lt; lia).
 Qed.
 
 Lemma alloc_noop : forall g, wfg g -> g_ist g = ILive -> alloc_sockets g = g.
 Proof.
   intros g (W1 & W2 & W3 & W4) Hl. unfold alloc_sockets. destruct (g_sockets g) eqn:Es; simpl; auto.
-  destruct (W2 Hl Es) as [Ha _]. rewrite Ha. reflexivity.
+  destruct (W2 Hl eq_refl) as [Ha _]. rewrite Ha. reflexivity.
 Qed.
+
+(* ---------- transfer lemmas: steps that do not concern an invariant ---------- *)
+
+Lemma A_i_transfer : forall s g' t l',
+  A_i s ->
+  g_ist g' = g_ist (s_g s) -> g_il g' = g_il (s_g s) -> g_evd g' = g_evd (s_g s) ->
+  c_q (g_ci g') = c_q (g_ci (s_g s)) ->
+  (readable (s_g s) CI = true -> readable g' CI = true) ->
+  is_pend_i (l_pc (s_l s t)) = false ->
+  A_i (mkS g' (upd (s_l s) t l')).
+Proof.
+  intros s g' t l' A H1 H2 H3 H4 H5 H6. unfold A_i, tok_i in *. simpl. rewrite H1, H2, H3, H4.
+  intros Hl Hw Hq. destruct (A Hl Hw Hq) as [R | P]; [left; auto | right; apply pendU_upd_mono; auto].
+Qed.
+
+Lemma A_i_dead : forall s', g_ist (s_g s') <> ILive -> A_i s'.
+Proof. intros s' H Hl. contradiction. Qed.
+
+Lemma A_i_looks : forall s', will_look (g_evd (s_g s')) (l_pc (g_il (s_g s'))) = true -> A_i s'.
+Proof. intros s' H _ Hw. congruence. Qed.
+
+Lemma A_i_readable : forall s', readable (s_g s') CI = true -> A_i s'.
+Proof. intros s' H _ _ _. left. exact H. Qed.
+
+Lemma A_i_transfer_int : forall s g' l',
+  A_i s ->
+  g_ist g' = g_ist (s_g s) -> g_evd g' = g_evd (s_g s) ->
+  c_q (g_ci g') = c_q (g_ci (s_g s)) ->
+  (readable (s_g s) CI = true -> readable g' CI = true) ->
+  will_look (g_evd (s_g s)) (l_pc (g_il (s_g s))) = false ->
+  A_i (mkS (set_il l' g') (s_l s)).
+Proof.
+  intros s g' l' A H1 H3 H4 H5 Hw0. unfold A_i, tok_i in *. simpl. rewrite H1, H4.
+  intros Hl Hw Hq. destruct (A Hl Hw0 Hq) as [R | P]; [left | right; exact P].
+  unfold readable in *. simpl in *. auto.
+Qed.
+
+Lemma tok_o_transfer : forall s g' t l',
+  tok_o s ->
+  g_ist g' = g_ist (s_g s) -> g_il g' = g_il (s_g s) ->
+  (readable (s_g s) CO = true -> readable g' CO = true) ->
+  is_pend_o (l_pc (s_l s t)) = false ->
+  tok_o (mkS g' (upd (s_l s) t l')).
+Proof.
+  intros s g' t l' T H1 H2 H3 H4. unfold tok_o in *. simpl. rewrite H1, H2.
+  destruct T as [R | [P | Q]]; [left; auto | right; left; apply pendU_upd_mono; auto | right; right; exact Q].
+Qed.
+
+Section Wake.
+Variable absorb_n : nat.
+Variable react : nat -> list msg * bool.
+
+Notation Step := (Step absorb_n react).
+
+(* frames of a user thread's step with respect to the internal thread's queue *)
+Ltac sig_frame Hs :=
+  let F := fresh "F" in pose proof (signal_frame _ _ _ _ Hs) as F;
+  destruct F as (F1 & F2 & F3 & F4 & F5 & F6 & F7 & F8 & F9 & F10 & F11 & F12).
+
+Lemma A_i_user_step : forall s t p k c g' l' e',
+  wf (g_sockets (s_g s)) (g_evd (s_g s)) s -> wake s ->
+  s_l s t = mkL p k ->
+  Step c (s_g s) (mkL p k) g' l' e' ->
+  A_i (mkS g' (upd (s_l s) t l')).
+Proof.
+  intros s t p k c g' l' e' W Wk El Hst.
+  pose proof (wf_wfg _ _ _ W) as Wg.
+  assert (Hu : upc_ok t (mkL p k)) by (rewrite <- El; apply (wf_upc _ _ _ W)).
+  destruct Wk as [Ai Ao Po Hstrict].
+  inversion Hst; subst; clear Hst; unfold upc_ok in Hu; simpl in Hu; try contradiction.
+  - (* enqueue *)
+    destruct x.
+    + (* onto the internal thread's queue *)
+      unfold A_i, tok_i. simpl. intros Hl Hw Hq.
+      destruct (c_q (g_ci (s_g s))) as [|m0 q0] eqn:Eq.
+      * right. apply pendU_upd_new. simpl. reflexivity.
+      * assert (T : tok_i s) by (apply Ai; auto; rewrite Eq; discriminate).
+        destruct T as [R | P]; [left; exact R | right].
+        apply pendU_upd_mono; [rewrite El; reflexivity | exact P].
+    + apply A_i_transfer; auto. rewrite El. reflexivity.
+  - (* the signal of a thread that appended to an empty queue *)
+    sig_frame H3. destruct x.
+    + destruct (g_ist g') eqn:Hl; try (apply A_i_dead; simpl; congruence).
+      apply A_i_readable. simpl. eapply signal_CI_readable; eauto.
+      intros Hs. destruct Wg as (_ & W2 & _). apply W2; congruence.
+    + apply A_i_transfer; auto.
+      * destruct (F9 CI) as (Q & _). exact Q.
+      * intros R. rewrite (readable_CI_same (s_g s) g'); auto. apply F10. discriminate.
+      * rewrite El. reflexivity.
+  - apply A_i_transfer; auto. rewrite El. destruct x; reflexivity.
+  - (* absorb: a user thread only absorbs on the reply side *)
+    destruct x; [destruct k; contradiction|].
+    pose proof (absorb_frame absorb_n CO (s_g s)) as F. simpl in F.
+    destruct F as (F1 & F2 & F3 & F4 & F5 & F6 & F7 & F8 & F9 & F10).
+    apply A_i_transfer; auto.
+    + destruct (F9 CI) as (Q & _). exact Q.
+    + intros R. rewrite (readable_CI_same (s_g s) _); auto. apply F10. discriminate.
+    + rewrite El. reflexivity.
+  - apply A_i_transfer; auto. rewrite El. reflexivity.
+  - destruct x; [destruct k; contradiction|]. apply A_i_transfer; auto. rewrite El. reflexivity.
+  - apply A_i_transfer; auto. rewrite El. reflexivity.
+  - apply A_i_transfer; auto. rewrite El. reflexivity.
+  - apply A_i_transfer; auto. rewrite El. reflexivity.
+  - apply A_i_transfer; auto. rewrite El. reflexivity.
+  - apply A_i_transfer; auto. rewrite El. reflexivity.
+  - destruct x; [destruct k; contradiction|]. apply A_i_transfer; auto. rewrite El. reflexivity.
+  - apply A_i_transfer; auto. rewrite El. reflexivity.
+  - apply A_i_transfer; auto. rewrite El. reflexivity.
+  - apply A_i_transfer; auto. rewrite El. reflexivity.
+  - (* the thread is created *)
+    destr_k k. subst t.
+    pose proof (alloc_frame (s_g s)) as F. simpl in F. destruct F as (F1 & F2 & F3 & F4 & F5 & F6 & F7).
+    unfold A_i, tok_i. simpl. rewrite F2. intros _ Hw Hq.
+    destruct (g_evd (s_g s)) eqn:Ee; simpl in Hw; [|discriminate].
+    destruct (Hstrict eq_refl) as [_ B].
+    right. apply pendU_upd_new. simpl.
+    rewrite (B needs) by (rewrite El; reflexivity).
+    destruct (F7 CI) as (Q & _). simpl in Q. rewrite Q in Hq.
+    destruct (c_q (g_ci (s_g s))); [contradiction | reflexivity].
+  - (* the initial signal *)
+    sig_frame H3.
+    destruct (g_ist g') eqn:Hl; try (apply A_i_dead; simpl; congruence).
+    apply A_i_readable. simpl. eapply signal_CI_readable; eauto.
+    intros Hs. destruct Wg as (_ & W2 & _). apply W2; congruence.
+  - apply A_i_transfer; auto. rewrite El. reflexivity.
+  - apply A_i_transfer; auto. rewrite El. reflexivity.
+  - apply A_i_transfer; auto. rewrite El. reflexivity.
+  - apply A_i_transfer; auto. rewrite El. reflexivity.
+  - apply A_i_transfer; auto. rewrite El. reflexivity.
+  - apply A_i_dead. simpl. discriminate.
+  - (* GetOwnerWakeupSocket *)
+    destruct (g_ist (s_g s)) eqn:Hl.
+    + apply A_i_dead. simpl. pose proof (alloc_frame (s_g s)) as F. simpl in F. destruct F as (_ & _ & _ & F4 & _). congruence.
+    + rewrite (alloc_noop _ Wg Hl). apply A_i_transfer; auto. rewrite El. reflexivity.
+    + apply A_i_dead. simpl. pose proof (alloc_frame (s_g s)) as F. simpl in F. destruct F as (_ & _ & _ & F4 & _). congruence.
+Qed.
+
+End Wake.
